@@ -118,6 +118,8 @@ impl<V: PoseidonVariant> PoseidonPermExecutor<V> {
         let mut resolved = F::zero_vec(width_ext);
 
         if self.new_start {
+            #[cfg(feature = "p3r-verif")]
+            ctx.verif_tamper_free_state(&mut resolved);
             return Ok(resolved);
         }
 
@@ -136,6 +138,8 @@ impl<V: PoseidonVariant> PoseidonPermExecutor<V> {
             resolved[..n].copy_from_slice(&prev[..n]);
         }
 
+        #[cfg(feature = "p3r-verif")]
+        ctx.verif_tamper_free_state(&mut resolved);
         Ok(resolved)
     }
 
